@@ -238,6 +238,10 @@ func (h *Handler) dialPeers(upstream *Upstream, repl *caddy.Replacer, down *laye
 				h.FromConn(downConn, false)
 				_, err = h.WriteTo(up)
 			}
+			if err != nil {
+				// the upstream was dialed but could not be sent the header; don't leak it
+				_ = up.Close()
+			}
 		}
 
 		if err != nil {
